@@ -35,6 +35,7 @@ def in_glas(p):
 def run(F, res, tier):
     lock_rules(F, res)
     other_rules(F, res)
+    store_updates_after_cancellation(F, res)
 
 
 def lock_rules(F, res, w1="W1", w3="W3"):
@@ -202,7 +203,14 @@ def other_rules(F, res):
                     if isinstance(e, dict) and e.get("n"):
                         names.add(e["n"])
         return names
-    for hname in ("on_did_open", "on_did_change"):
+    from rules import c15 as _c15
+    appliers = []
+    for hname in _c15.ENTRIES:
+        hp = SRV + hname
+        if hp in F.fns and (SRV + "apply_vfs_change") in (L.reaches({SRV + "apply_vfs_change"}) and F.reachable_from([hp])):
+            appliers.append(hname)
+    res.floor("message handlers that apply a change to the analysis host", len(appliers), 3)
+    for hname in appliers:
         res.ob("W4", "%s/all-open-documents" % hname, "%s recomputes the diagnostics of every open document (the change it applied cancelled all "
                "running diagnostics tasks, not only this document's)" % hname, respawns_all(SRV + hname), where=F.fn(SRV + hname).loc(),
                how="spawn_update_diagnostics in a loop over opened_files: %s" % respawns_all(SRV + hname))
@@ -230,3 +238,41 @@ def other_rules(F, res):
     ap = [b for b, t in ac.calls() if callee(t) == "ide::base::Change::apply"]
     res.ob("W5", "cancel-before-write", "AnalysisHost::apply_change requests cancellation before it writes the inputs",
            len(rc) == 1 and len(ap) == 1 and ac.dominates(rc[0], ap[0]), where=ac.loc(), how="request_cancellation %d, Change::apply %d" % (len(rc), len(ap)))
+
+
+def store_updates_after_cancellation(F, res, rule="W7"):
+    """W7: request handlers run on a *snapshot* of the analysis but read the *live* document store (line maps,
+    uri <-> file id) when they convert their answer. The store may therefore only be modified when no handler is running:
+    every acquisition of the store's write lock that can lead to a modification is preceded, in the same function, by
+    AnalysisHost::request_cancellation() (salsa's synthetic write: it returns only after every outstanding snapshot has
+    been dropped), called while no guard of the store is held (else the cancelled handlers could not finish).
+    Otherwise an answer computed on the old text is converted with the line map of the new text."""
+    RC = "ide::ide::AnalysisHost::request_cancellation"
+    MUT = ("change_file_content", "set_path_content", "remove_uri", "set_package_graph", "set_roots", "set_structural_change")
+    n = 0
+    for p, f in sorted(F.fns.items()):
+        if not p.startswith("glas::server::") or not f.blocks:
+            continue
+        d = FL.Defs(f)
+        for b, t in f.calls():
+            acq = LK.acquisition(t)
+            if not acq or acq[0] != "write" or not acq[1].endswith("vfs::Vfs"):
+                continue
+            # does the guard reach a mutation of the store? (apply_vfs_change only takes the pending Change out)
+            muts = [b2 for b2, t2 in f.calls() if (callee(t2) or "").startswith("glas::vfs::Vfs::") and
+                    (callee(t2) or "").rsplit("::", 1)[-1] in MUT and f.can_reach(b, [b2])]
+            via = [b2 for b2, t2 in f.calls() if (callee(t2) or "").startswith("glas::server::Server::") and f.can_reach(b, [b2]) and
+                   any(F.fns.get(x) is not None and any((callee(t3) or "").rsplit("::", 1)[-1] in MUT and (callee(t3) or "").startswith("glas::vfs::Vfs::")
+                                                         for _b3, t3 in F.fns[x].calls()) for x in F.call_targets(f, t2))]
+            if not muts and not via:
+                continue
+            n += 1
+            ordn = [bb for bb, tt in f.calls() if LK.acquisition(tt) and LK.acquisition(tt)[0] == "write"].index(b)
+            rcs = [b2 for b2, t2 in f.calls() if callee(t2) == RC and f.dominates(b2, b)]
+            held = LK.held_before_calls(f)
+            free = all(not any(g[1].endswith("vfs::Vfs") for g in held.get(b2, [])) for b2 in rcs) if rcs else False
+            res.ob(rule, "%s/write/%d" % (p.rsplit("::", 1)[-1], ordn),
+                   "the document store is modified here only after request_cancellation() returned (no handler is still running on an "
+                   "older snapshot), and that call is made with no guard of the store held", bool(rcs) and free, where=f.loc(t["ln"]),
+                   how="request_cancellation dominating this acquisition: %d; made without a store guard: %s" % (len(rcs), free))
+    res.floor("write acquisitions of the document store that lead to a modification", n, 4)
